@@ -429,7 +429,7 @@ func c14CLI(c *Ctx, n int, thorough bool) error {
 		}
 		// flat and nested layouts: several targets share one output root, or
 		// one target's root lies inside another's
-		for _, layout := range []string{"shared-root", "nested-roots"} {
+		for _, layout := range []string{"shared-root", "nested-roots", "prefix-siblings"} {
 			sets := [][]string{AllTargets}
 			for k := 0; k < 3; k++ {
 				sets = append(sets, randomHistorySorted(r))
